@@ -286,6 +286,12 @@ func Explore(prog *ssa.Program, hpkg *ssa.Package, cfg *Config, opts ExploreOpts
 	seenViol := map[string]bool{}
 
 	var wg sync.WaitGroup
+	if opts.Deadline > 0 {
+		// hard stop: half a minute after the deadline paths that are still running are ended as well
+		c2 := *cfg
+		c2.HardDeadline = t0.Add(opts.Deadline + 30*time.Second)
+		cfg = &c2
+	}
 	var firstErr error
 	var graceStart time.Time
 	for i := 0; i < opts.Workers; i++ {
